@@ -88,6 +88,10 @@ def r07b(ctx, P):
             fl |= sl.fields(a)
         if clos or "should" in fl:
             bool_sites.append((b, t, clos))
+    if not bool_sites:
+        # `match minimum_should_match { Some(n) => *n, None => <default> }`, the default possibly in a private helper
+        if _r07b_match_form(ctx, P, rid):
+            return
     ctx.floor(rid, len(bool_sites), 1, "default of minimum_should_match in the Bool arm of matches_node")
     for b, t, clos in bool_sites:
         site = Site(f, b)
@@ -138,6 +142,91 @@ def r07b(ctx, P):
                "the should threshold is influenced by %s only" % sorted(x for x in inf["fields"] if x in ("should", "must", "filter", "minimum_should_match")) if ok else
                "the number of should clauses a document must satisfy depends on `must_not`: a bool with should + must_not clauses no "
                "longer means (any should) AND NOT (must_not)", site.loc())
+
+
+def _r07b_match_form(ctx, P, rid):
+    from sa import boolpaths
+    from sa.prog import influence, op_local, op_place
+    from sa.rules.C13 import _is_error_exit_test
+    f = P.inlined(MATCHES, depth=1, small=40)
+    if f is None:
+        return False
+    sl0 = Slice(f)
+    cand = None
+    for b in sorted(f.reachable()):
+        t = f.blocks[b]["term"]
+        if t["k"] != "switch":
+            continue
+        for x in sl0.sources(t["on"]):
+            if x[0] == "discr":
+                pl = f.blocks[x[1]]["stmts"][x[2]]["rv"]["place"]
+                if "minimum_should_match" in sl0.fields(t["on"]) and "Option<usize>" in f.local_ty(pl["l"]).replace("core::option::", ""):
+                    vals = dict(zip(t["values"], t["targets"]))
+                    none_b = vals.get(0, t.get("otherwise") if 0 not in vals else None)
+                    some_b = vals.get(1, t.get("otherwise") if 1 not in vals else None)
+                    if none_b is not None and some_b is not None:
+                        cand = (b, t, none_b, some_b)
+    if cand is None:
+        return False
+    b, t, none_b, some_b = cand
+    join = f.ipdom().get(b)
+    r_none = f.reachable_from(none_b, stop=[join]) if join is not None else set()
+    r_some = f.reachable_from(some_b, stop=[join]) if join is not None else set()
+    defs = f.defs()
+    T = [l for l in range(len(f.locals)) if f.local_ty(l) == "usize" and
+         any(d["b"] in r_some and d["b"] != join for d in defs.get(l, [])) and any(d["b"] in r_none and d["b"] != join for d in defs.get(l, []))]
+    if len(T) != 1 or join is None:
+        return False
+    T = T[0]
+    site = Site(f, b)
+    ctx.saw(f)
+    ctx.floor(rid, 1, 1, "default of minimum_should_match in the Bool arm of matches_node")
+    env0 = {}
+    for l, dd in defs.items():
+        if len(dd) == 1 and dd[0]["k"] == "assign" and dd[0]["rv"]["k"] == "ref" and not dd[0]["rv"].get("mut") and not dd[0].get("partial"):
+            env0[l] = ("ref", dd[0]["rv"]["place"])
+
+    def atom_of_place(pl):
+        fl = [e["f"].replace("upvar:", "").lstrip("*") for e in pl["p"] if isinstance(e, dict) and "f" in e]
+        return ("flag", fl[-1]) if fl else None
+    ps = boolpaths.paths(f, none_b, lambda bb: "join" if bb == join else None, atom_of_place, track_return=True, env0=env0, track_local=T)
+    atoms = {a for p_ in ps for a in p_.cons}
+    known = {("is_empty", "should"), ("is_empty", "must"), ("is_empty", "filter")}
+    decided, detail = None, ""
+    if ps and atoms <= known and not any(p_.opaque for p_ in ps) and all(p_.ret is not None and p_.ret[0] == "const" for p_ in ps):
+        bad = []
+        for se in (True, False):
+            for me in (True, False):
+                for fe in (True, False):
+                    asg = {("is_empty", "should"): se, ("is_empty", "must"): me, ("is_empty", "filter"): fe}
+                    rets = {p_.ret[1] for p_ in ps if all(asg[a] == v for a, v in p_.cons.items())}
+                    want = 0 if se else (1 if (me and fe) else 0)
+                    if rets != {want}:
+                        bad.append("should%s must%s filter%s -> %s (expected %d)" % (
+                            "=[]" if se else "!=[]", "=[]" if me else "!=[]", "=[]" if fe else "!=[]", sorted(rets), want))
+        decided = not bad
+        detail = "; ".join(bad)
+    else:
+        detail = "the default depends on %s%s: table not extracted" % (sorted(atoms - known, key=str), " (opaque tests)" if any(p_.opaque for p_ in ps) else "")
+    if decided is not None:
+        ctx.ob(rid, "%s:matches_node:bool-default-table" % rid, decided,
+               "default minimum_should_match: 0 without should, 1 with should and no must/filter, 0 otherwise (8 rows)" if decided else
+               "default minimum_should_match deviates from the documented bool semantics: %s" % detail, site.loc())
+    else:
+        ctx.note("R07.b: %s (only the independence from must_not is decided)" % detail)
+
+    tl = Slice(f).locals({"cp": {"l": T, "p": []}}) | {T}
+
+    def excl(a):
+        t_ = f.blocks[a]["term"]
+        return any("ForLoop" in m or "WhileLoop" in m for m in (t_.get("macros") or [])) or _is_error_exit_test(f, a, not_defining=tl)
+    inf = influence(f, {"cp": {"l": T, "p": []}}, excl)
+    ok = "must_not" not in inf["fields"]
+    ctx.ob(rid, "%s:matches_node:bool-default-independent-of-must_not" % rid, ok,
+           "the should threshold is influenced by %s only" % sorted(x for x in inf["fields"] if x in ("should", "must", "filter", "minimum_should_match")) if ok else
+           "the number of should clauses a document must satisfy depends on `must_not`: a bool with should + must_not clauses no "
+           "longer means (any should) AND NOT (must_not)", site.loc())
+    return True
 
 
 def r07c(ctx, P):
